@@ -253,7 +253,8 @@ func HarnessC12_Partitions() {
 		}
 		all = append(all, tok)
 		// state by choice (the shard size depends on the number of active partitions)
-		st := []PartitionState{PartitionPending, PartitionActive, PartitionInactive}[vfChoice("pstate", 3)]
+		// every state a descriptor can hold, tombstones included
+		st := []PartitionState{PartitionPending, PartitionActive, PartitionInactive, PartitionDeleted}[vfChoice("pstate", 4)]
 		states[p] = st
 		if st == PartitionActive {
 			active++
@@ -357,7 +358,7 @@ func HarnessC12_PartConsistency() {
 		d1.Partitions[int32(p)] = pd
 		d2.Partitions[int32(p)] = pd
 	}
-	xst := []PartitionState{PartitionPending, PartitionActive, PartitionInactive}[vfChoice("xstate", 3)]
+	xst := []PartitionState{PartitionPending, PartitionActive, PartitionInactive, PartitionDeleted}[vfChoice("xstate", 4)]
 	d2.Partitions[int32(np)] = PartitionDesc{Id: int32(np), Tokens: []uint32{newTok("xtok")}, State: xst, StateTimestamp: 10}
 	r1, err1 := NewPartitionRing(*d1)
 	r2, err2 := NewPartitionRing(*d2)
